@@ -77,9 +77,12 @@ ExecPlan   == ModesOf(C.plan) \subseteq ExecModes
 
 \* plans for which the statements are silent are not judged syntactically:
 \* other injections at or inside a region removed by a block-alternate
+\* (a further block-alternate STRICTLY inside the removed region is not such a case: C21 says the construct is
+\*  removed "from its opening instruction through its matching end", so the inner replacement goes with it)
 Overlap ==
     \E i \in Acc(C.plan), k \in Acc(C.plan) :
         /\ i # k /\ C.plan[i].mode \in {"block_alt", "empty_block_alt"}
+        /\ ~(C.plan[k].mode \in {"block_alt", "empty_block_alt"} /\ C.plan[k].site > C.plan[i].site)
         /\ C.plan[i].site >= 0 /\ C.plan[k].site >= 0
         /\ C.orig[C.plan[i].site + 1].o \in (Openers \cup {"else"})
         /\ C.plan[k].site + 1 >= C.plan[i].site + 1
@@ -87,11 +90,22 @@ Overlap ==
                                   THEN JTO[cid][C.plan[i].site + 1].end
                                   ELSE JTO[cid][C.plan[i].site + 1].end)
 
+\* a block-alternate nested strictly inside the region of another: the FIRST encoding is judged (outer removal
+\* wins, ProbeIdeal!Enclosed); the inner injection stays pending in the IR, which is the situation of finding
+\* F-OVL, so for attribution (C22 / second encodings) such plans count as overlapping
+NestedAlt ==
+    \E i \in Acc(C.plan), k \in Acc(C.plan) :
+        /\ i # k /\ {C.plan[i].mode, C.plan[k].mode} \subseteq {"block_alt", "empty_block_alt"}
+        /\ C.plan[i].site >= 0 /\ C.plan[k].site > C.plan[i].site
+        /\ C.orig[C.plan[i].site + 1].o \in (Openers \cup {"else"})
+        /\ C.plan[k].site + 1 <= JTO[cid][C.plan[i].site + 1].end
+IsSecond == "second" \in DOMAIN C /\ C.second
+
 Chk(c, ok, d) ==
     IF ok THEN TRUE
     ELSE PrintT(<<"VERDICT", ToJson([tr |-> C.id, c |-> c, d |-> d, modes |-> ModesOf(C.plan),
                                      apis |-> {C.plan[i].api : i \in Acc(C.plan)},
-                                     overlap |-> Overlap, sa_arms |-> SaArms])>>)
+                                     overlap |-> (Overlap \/ NestedAlt), sa_arms |-> SaArms])>>)
 
 \* distinct relative depths a branch at plan entry i can go to
 NTargets(i) ==
@@ -112,7 +126,7 @@ Static ==
        ELSE
        /\ Chk("encode_panic", ~C.encode_panic, [msg |-> C.msg])
        /\ C.encode_panic \/
-          /\ Chk("invalid", C.valid, [err |-> C.err])
+          /\ Chk("invalid", C.valid \/ (NestedAlt /\ IsSecond), [err |-> C.err])
           /\ Chk("foreign", ~Foreign(C.low), [x |-> 0])
           /\ Chk("bug_log", C.bugs = <<>>, [n |-> Len(C.bugs)])
           /\ \A i \in LostEntries :
@@ -122,7 +136,7 @@ Static ==
           /\ Chk("flag_local_not_fresh",
                  \A x \in LocalsTouched(C.low) \ LocalsTouched(C.orig) : x >= C.nlocals,
                  [x |-> 0])
-          /\ (SimplePlan /\ ~Overlap) =>
+          /\ (SimplePlan /\ ~Overlap /\ ~(NestedAlt /\ IsSecond)) =>
                 /\ Chk("splice", C.low = Splice(C.orig, JTO[cid], C.plan),
                        [want |-> Len(Splice(C.orig, JTO[cid], C.plan)), got |-> Len(C.low)])
                 /\ Chk("locals_changed", Len(C.locals) = C.nlocals, [n |-> Len(C.locals)])
@@ -169,6 +183,14 @@ Str(ev) == [i \in DOMAIN ev |->
                 [] ev[i].e = "ret"   -> "ret" \o ToString(ev[i].v)
                 [] OTHER             -> "trap"]
 
+\* features of a probe mismatch used to tell findings apart: how often the ideal fires p, how often the lowered
+\* body does, and how many of the ideal firings happen on the way out of the function (the next original event
+\* is the return): finding F-S24 loses exactly those and nothing else
+NFire(ev, p) == Cardinality({x \in DOMAIN ev : ev[x].e = "probe" /\ ev[x].p = p})
+NextOrig(ev, x) == LET later == {y \in DOMAIN ev : y > x /\ ev[y].e # "probe"} IN
+                   IF later = {} THEN "none" ELSE ev[CHOOSE y \in later : \A z \in later : y <= z].e
+NAtRet(ev, p) == Cardinality({x \in DOMAIN ev : ev[x].e = "probe" /\ ev[x].p = p /\ NextOrig(ev, x) \in {"ret", "none"}})
+
 Compare ==
     IF mi.st \notin {"ret", "trap"} THEN TRUE          \* fuel exhausted / unconstrained path: not judged
     ELSE
@@ -186,6 +208,7 @@ Compare ==
                       THEN [mode |-> "none", api |-> "none", p |-> p, ideal |-> Str(mi.ev), low |-> Str(ml.ev)]
                       ELSE EntryD(EntryOfProbe(p)) @@
                            [p |-> p, ideal |-> Str(mi.ev), low |-> Str(ml.ev),
+                            fn_only |-> (NFire(ml.ev, p) = NFire(mi.ev, p) - NAtRet(mi.ev, p)),
                             more |-> (Cardinality({x \in DOMAIN ml.ev : ml.ev[x].e = "probe" /\ ml.ev[x].p = p})
                                       > Cardinality({x \in DOMAIN mi.ev : mi.ev[x].e = "probe" /\ mi.ev[x].p = p}))])
 
